@@ -90,11 +90,29 @@ def show(r):
     return r[:2]
 
 
+_parsed = {}
+_compiled = {}
+
+
+def compiled_for(text, codec):
+    """lib.attempt result of compiling [text] for [codec]; the text is parsed once."""
+    key = (text, codec)
+    if key not in _compiled:
+        if len(_compiled) > 400:
+            _compiled.clear()
+            _parsed.clear()
+        if text not in _parsed:
+            _parsed[text] = lib.attempt(asn1tools.parse_string, text)
+        p = _parsed[text]
+        _compiled[key] = p if p[0] != 'ok' else lib.attempt(asn1tools.compile_dict, copy.deepcopy(p[1]), codec)
+    return _compiled[key]
+
+
 def compare_pair(text1, text2, codecs, tname, value):
     """None when the two arrangements behave alike, else a description."""
     for codec in codecs:
-        c1 = lib.attempt(asn1tools.compile_string, text1, codec)
-        c2 = lib.attempt(asn1tools.compile_string, text2, codec)
+        c1 = compiled_for(text1, codec)
+        c2 = compiled_for(text2, codec)
         if c1[0] != c2[0] or (c1[0] == 'err' and c1[1] != c2[1]):
             return '%s: compile %s vs %s' % (codec, 'ok' if c1[0] == 'ok' else c1[1:3], 'ok' if c2[0] == 'ok' else c2[1:3])
         if c1[0] != 'ok':
@@ -174,6 +192,74 @@ def dup_name_cases(ctx, n):
                     break
             if done:
                 break
+
+# ---------------------------------------------------------------------------
+# tagged references that reach a CHOICE through a chain of references, only the first name imported
+
+def choice_chain_cases(ctx, n):
+    """S ::= SEQUENCE { m [k] A2, ... }  A2 ::= A1  A1 ::= C  C ::= CHOICE {...}: a tag on a CHOICE is
+    EXPLICIT whatever the module default says, and pre_process finds that out by following the chain of
+    references into the modules that define the names.  One module against the definitions spread over
+    modules in which the referencing module imports only the first name of the chain."""
+    import gen_asn1
+    rng = ctx.rng
+    for _ in range(n):
+        g = gen_asn1.Gen(rng, gen_asn1.Opts(max_depth=1, recursion=False, kinds=set(gen_asn1.DEFAULT_KINDS) - {'REF', 'SET'},
+                                            defaults=False, named_bits=False, named_numbers=False))
+        g.pending = {}
+        tags = rng.choice(['IMPLICIT', 'IMPLICIT', 'AUTOMATIC', 'EXPLICIT'])
+        nalt = rng.randrange(1, 4)
+        choice = {'k': 'CHOICE', 'root': [{'name': 'c%d' % i, 't': g.gen_type(1, allow_ref=False), 'opt': None,
+                                           'tag': ('', i, '')} for i in range(nalt)], 'ext': None}
+        chain = rng.randrange(1, 4)                    # number of reference steps from the member to the CHOICE
+        types = [('C', choice)]
+        prev = 'C'
+        for i in range(chain - 1):
+            types.append(('A%d' % (i + 1), {'k': 'REF', 'name': prev, 'size': None, 'c': None}))
+            prev = 'A%d' % (i + 1)
+        other = g.gen_type(1, allow_ref=False)
+        members = [{'name': 'm', 't': {'k': 'REF', 'name': prev, 'size': None, 'c': None},
+                    'opt': rng.choice([None, 'optional']), 'tag': ('', rng.choice([1, 7, 40]), '')},
+                   {'name': 'o', 't': other, 'opt': None, 'tag': ('', 2, '')}]
+        rng.shuffle(members)
+        holder = rng.choice(['SEQUENCE', 'SEQUENCE', 'SET'])
+        types.append(('S', {'k': holder, 'root': members, 'ext': None}))
+        if rng.random() < .4:
+            types.append(('L', {'k': 'SEQUENCE OF', 'elem': {'k': 'REF', 'name': 'S', 'size': None, 'c': None},
+                                'size': None}))
+        spec = G.Spec(tags, False, types, [])
+        one = G.arrange(rng, spec, reorganise=False, nmods=1)
+        # every definition in a module of its own choice, S never together with the rest of the chain
+        names = ['Ma', 'Mb', 'Mc', 'Md']
+        mods = [{'name': nm, 'tags': tags, 'ext_implied': False, 'types': [], 'values': []} for nm in names]
+        for nt in types:
+            if nt[0] in ('S', 'L'):
+                mods[0]['types'].append(nt)
+            else:
+                rng.choice(mods[1:])['types'].append(nt)
+        mods = [m for m in mods if m['types']]
+        rng.shuffle(mods)
+        t1, t2 = G.render_text(one), G.render_text(mods)
+        vg = G.value_gen(rng, spec)
+        eff = dict(vg.types)
+        ctx.case(('chain', tags, chain, holder, len(mods)), dict(kind='pair', arrangement1=t1, arrangement2=t2))
+        ctx.count('choice-chain:%d' % chain)
+        codecs = [c for c in G.CODECS if c != 'xer'] + ['xer']
+        for tname in [n for n, _ in types if n in ('S', 'L')]:
+            bad = False
+            for _ in range(2):
+                v = vg.gen_value(eff[tname])
+                r = compare_pair(t1, t2, codecs, tname, v)
+                if r is not None:
+                    ctx.violation('a tagged reference that reaches a CHOICE through %d reference step(s), one module '
+                                  'against IMPORTS of the first name only: %s' % (chain, r),
+                                  dict(kind='pair', id='tagged-reference-chain-to-choice', arrangement1=t1,
+                                       arrangement2=t2, codecs=codecs, type=tname, value=repr(v)))
+                    bad = True
+                    break
+            if bad:
+                break
+
 
 # ---------------------------------------------------------------------------
 # property test on /repo
@@ -419,6 +505,7 @@ def run(ctx):
     witnesses(ctx)
     known_findings(ctx)
     dup_name_cases(ctx, 6 if ctx.quick else 80)
+    choice_chain_cases(ctx, 10 if ctx.quick else 150)
     pt_arrangements(ctx, 40 if ctx.quick else 350, 3, 3 if ctx.quick else 4)
     ctx.log('property test done')
     total = 12 if ctx.quick else 150
